@@ -128,28 +128,26 @@ def compute(
 
             freq[pos][None] += weight
 
-            # The following while-loop is equivalent to:
-            #
-            # freq[pos][synset.id] += weight
-            # for path in synset.hypernym_paths():
-            #     for ss in path:
-            #         freq[pos][ss.id] += weight
-            #
-            # ...but it caches hypernym lookups for speed
+            # The following while-loop adds the weight to the synset
+            # and to each of its hypernym ancestors exactly once; it
+            # caches hypernym lookups for speed
 
-            agenda: list[tuple[Synset, set[Synset]]] = [(synset, set())]
+            agenda: list[Synset] = [synset]
+            seen: set[Synset] = set()
             while agenda:
-                ss, seen = agenda.pop()
+                ss = agenda.pop()
 
-                # avoid cycles
+                # add the weight only once per synset, even when
+                # hypernym paths converge (this also avoids cycles)
                 if ss in seen:
                     continue
+                seen.add(ss)
 
                 freq[pos][ss.id] += weight
 
                 if ss not in hypernym_cache:
                     hypernym_cache[ss] = ss.hypernyms()
-                agenda.extend((hyp, seen | {ss}) for hyp in hypernym_cache[ss])
+                agenda.extend(hypernym_cache[ss])
 
     return freq
 
